@@ -27,7 +27,14 @@ def fiber_cases(ctx):
             else:
                 c["n"] = rng.randint(1, 4)
                 c["pre"] = c["post"] = c["rel"] = 0
+            if op == "nonuniform" and rng.random() < 0.3:
+                c["splits_fiber"] = 1
             out.append(c)
+    # the same splits of fibers whose default is 2 (a stored 0 is content, a stored 2 an explicit default)
+    ts2 = trees(nc, [0, 1, 2])
+    for c in list(out):
+        if rng.random() < 0.3:
+            out.append(dict(c, tree=rng.choice(ts2), dflt=2))
     return out
 
 
@@ -64,7 +71,7 @@ def where(c):
     halo = "halo" if (c.get("pre") or c.get("post")) else "nohalo"
     from .c09 import classify_tree
     ghost = ":ghost" if classify_tree(c["tree"]) == "ghost" else ""          # stored elements without content below the split rank: class of the known finding
-    return f"{c['kind']}:{halo}:{'rel' if c.get('rel') else 'abs'}:sd{c.get('sdepth', 0)}{ghost}"
+    return f"{c['kind']}:{halo}:{'rel' if c.get('rel') else 'abs'}:sd{c.get('sdepth', 0)}{ghost}" + (":dflt2" if c.get("dflt") else "") + (":splits-fiber" if c.get("splits_fiber") else "")
 
 
 def run(ctx):
